@@ -210,6 +210,10 @@ def stmt_is(stmt, pattern: str, env0=None) -> bool:
     return len(pat) == 1 and match(pat[0], stmt, dict(env0 or {}))
 
 
+_KNOWN_CALLABLES = {"constantdict", "flatten", "OrderedSet", "FrozenOrderedSet", "chain",
+                    "Counter", "defaultdict", "cast", "replace", "fields"}
+
+
 def alpha(text: str) -> str:
     """``text`` with every plain variable (same notion as _auto) renamed to
     v0, v1, ... in order of first occurrence: keys built from code text stay
@@ -227,8 +231,12 @@ def alpha(text: str) -> str:
                 return text
         else:
             return text
+    # called names stay literal only when they are well-known callables: a
+    # local holding a callable (get_deps = SubsetDependencyMapper(...)) is a
+    # variable like any other
     funcs = {id(n.func) for n in ast.walk(tree)
-             if isinstance(n, ast.Call) and isinstance(n.func, ast.Name)}
+             if isinstance(n, ast.Call) and isinstance(n.func, ast.Name)
+             and n.func.id in _KNOWN_CALLABLES}
     ren: dict[str, str] = {}
 
     class V(ast.NodeTransformer):
